@@ -75,20 +75,30 @@ class Abort(Exception):
 
 @contextlib.contextmanager
 def deadline(seconds):
+    """raise Timeout in the main thread when the body runs longer than `seconds`; the timer keeps firing every 2 s so that
+    clean-up code of the library that blocks while the Timeout unwinds (Pool.terminate()) is interrupted as well"""
     if threading.current_thread() is not threading.main_thread():
         yield
         return
+    state = {"active": True}
 
     def _raise(signum, frame):
-        raise Timeout("".join(traceback.format_stack(frame, limit=12)))  # where the main thread was when the time ran out
+        if state["active"]:
+            raise Timeout("".join(traceback.format_stack(frame, limit=12)))  # where the main thread was when the time ran out
 
     old = signal.signal(signal.SIGALRM, _raise)
-    signal.setitimer(signal.ITIMER_REAL, seconds)
+    signal.setitimer(signal.ITIMER_REAL, seconds, 2.0)
     try:
         yield
     finally:
-        signal.setitimer(signal.ITIMER_REAL, 0)
-        signal.signal(signal.SIGALRM, old)
+        while True:
+            try:
+                state["active"] = False
+                signal.setitimer(signal.ITIMER_REAL, 0)
+                signal.signal(signal.SIGALRM, old)
+                break
+            except Timeout:  # fired between the statements above
+                continue
 
 
 def _tup(x):
